@@ -1121,6 +1121,265 @@ Proof.
   destruct (regmap_dom _ _ _ Hk) as [Hc|[n [Hin Hkn]]]; [destruct Hc|].
   subst k. rewrite of_key_to_key'. exact Hin.
 Qed.
+
+(* ------------------------------------------------------------------ *)
+(* ---- references over a whole run ---- *)
+(* ------------------------------------------------------------------ *)
+(* the invariant asked for: every referenced selector is the LATEST registration of its object.  It is NOT an
+   invariant of run_stmts (Counterexamples.refs_ok_latest_not_invariant): a reference created by a binding is
+   not re-pointed by the registration its own binding target triggers, and the static branch hands back
+   whatever selector matches. *)
+Definition refs_ok (reg : list centry) (refs : list ((string * string) * string * string)) : Prop :=
+  forall x, In x refs -> latest reg (snd x).
+(* what IS invariant: every referenced selector is registered (or one of gin's own three) *)
+Definition resolvable (reg : list centry) (r : string) : Prop := In r (builtins ++ map ce_sel reg).
+Definition refs_resolvable (reg : list centry) (refs : list ((string * string) * string * string)) : Prop :=
+  forall x, In x refs -> resolvable reg (snd x).
+(* the symbol table binds objects of a universe in which no class has an attribute with the class's own id *)
+Definition table_ok (c : dctx) : Prop := forall n root d, tget n (c_table c) = Some (root, d) -> class_ids_ok root = true.
+
+Lemma register_chain_rp : forall reg d names chain reg' sel rp, register_chain reg d names chain = DOk (reg', sel, rp) ->
+  exists names' o m reg1 sel1, do_one d reg names' o m = DOk (reg1, sel1, rp).
+Proof.
+  intros reg d names chain reg' sel rp H. rewrite register_chain_unfold in H.
+  destruct (rev chain) as [|leaf rc]; [discriminate|].
+  destruct (rev (removelast chain)) as [|parent rp0]; [discriminate|].
+  destruct (is_func leaf && is_class parent).
+  - destruct (do_one d reg (removelast names) parent false) as [[[reg1 csel] rp1]|err] eqn:Ed; [|discriminate].
+    destruct (obj_id leaf) as [i|]; [|discriminate]. cbv zeta in H.
+    destruct (find_obj i reg1).
+    + inversion H; subst. eauto 6.
+    + match type of H with context [find_sel ?s0 reg1] => destruct (find_sel s0 reg1) end; [discriminate|].
+      inversion H; subst. eauto 6.
+  - eauto 6.
+Qed.
+Lemma gc_rp_shape : forall reg c sel reg' full rp, get_configurable reg c sel = DOk (reg', full, rp) ->
+  rp = [] \/ exists e0 n, rp = [(ce_sel e0, n)] /\ In e0 reg.
+Proof.
+  intros reg c sel reg' full rp H. destruct (c_dynamic c) eqn:Hd.
+  - destruct (get_configurable_dyn_inv _ _ _ _ _ _ Hd H) as [root [d [chain [i [Ht [Hf [Hi [[e1 [_ [Hr [_ Hrp]]]]|[Hfo Hreg]]]]]]]]].
+    + left. exact Hrp.
+    + destruct (register_chain_rp _ _ _ _ _ _ _ Hreg) as [names' [o [m [reg1 [sel1 Hdo]]]]].
+      destruct (do_one_rp _ _ _ _ _ _ _ _ Hdo) as [j [_ Hrp]].
+      destruct (find_obj j reg) as [e0|] eqn:Efo; [|left; exact Hrp].
+      right. exists e0, sel1. split; [exact Hrp|exact (proj1 (find_obj_Some _ _ _ Efo))].
+  - left. exact (proj2 (get_configurable_static2 _ _ _ _ _ _ Hd H)).
+Qed.
+
+Lemma gc_resolvable_step : forall reg c sel reg' full rp r, reg_wf reg ->
+  get_configurable reg c sel = DOk (reg', full, rp) -> resolvable reg r -> resolvable reg' (retarget1 rp r).
+Proof.
+  intros reg c sel reg' full rp r Hwf H Hr. unfold resolvable in *.
+  destruct (in_dec string_dec r (map ce_sel reg)) as [Hin|Hnin].
+  - destruct (In_map_find_sel _ _ Hin) as [e He].
+    destruct (C19_reference_keeps_object _ _ _ _ _ _ _ _ Hwf He H) as [e' [He' _]].
+    apply in_or_app. right. eapply find_sel_In_map; eauto.
+  - apply in_app_or in Hr. destruct Hr as [Hb|Hc]; [|contradiction].
+    assert (Hret : retarget1 rp r = r).
+    { destruct (gc_rp_shape _ _ _ _ _ _ H) as [E|[e0 [n [E Hin0]]]]; subst rp; [apply retarget1_nil|].
+      rewrite retarget1_single. destruct (String.eqb (ce_sel e0) r) eqn:Er; [|reflexivity].
+      exfalso. apply String.eqb_eq in Er. apply Hnin. rewrite <- Er. apply in_map. exact Hin0. }
+    rewrite Hret. apply in_or_app. left. exact Hb.
+Qed.
+Lemma gc_resolvable_mono : forall reg c sel reg' full rp r,
+  get_configurable reg c sel = DOk (reg', full, rp) -> resolvable reg r -> resolvable reg' r.
+Proof.
+  intros reg c sel reg' full rp r H Hr. unfold resolvable in *. apply in_app_or in Hr. apply in_or_app.
+  destruct Hr as [Hb|Hc]; [left; exact Hb|right].
+  destruct (In_map_find_sel _ _ Hc) as [e He].
+  destruct (get_configurable_monotone_sel _ _ _ _ _ _ H _ _ He) as [e' [He' _]]. eapply find_sel_In_map; eauto.
+Qed.
+Lemma gc_full_resolvable : forall reg c sel reg' full rp, reg_wf reg -> table_ok c ->
+  get_configurable reg c sel = DOk (reg', full, rp) -> resolvable reg' full.
+Proof.
+  intros reg c sel reg' full rp Hwf Hok H. unfold resolvable. destruct (c_dynamic c) eqn:Hd.
+  - destruct (C19_exact_object_universe _ _ _ _ _ _ Hwf Hd H (fun root d Ht => Hok _ _ _ Ht))
+      as [root [d [chain [i [e [_ [_ [_ [He _]]]]]]]]].
+    apply in_or_app. right. eapply find_sel_In_map; eauto.
+  - destruct (get_configurable_static_spec _ _ _ _ _ _ Hd H) as [Hr [_ Hin]]. subst reg'. exact Hin.
+Qed.
+Lemma failed_reg_resolvable : forall reg c sel r, resolvable reg r -> resolvable (failed_reg reg c sel) r.
+Proof.
+  intros reg c sel r Hr. unfold resolvable in *. apply in_app_or in Hr. apply in_or_app.
+  destruct Hr as [Hb|Hc]; [left; exact Hb|right].
+  destruct (In_map_find_sel _ _ Hc) as [e He].
+  destruct (failed_reg_monotone reg c sel _ _ He) as [e' [He' _]]. eapply find_sel_In_map; eauto.
+Qed.
+
+Lemma refs_retarget : forall reg reg' rp refs, (forall r, resolvable reg r -> resolvable reg' (retarget1 rp r)) ->
+  refs_resolvable reg refs -> refs_resolvable reg' (retarget rp refs).
+Proof.
+  intros reg reg' rp refs Hstep Hrefs x Hin. rewrite retarget_map in Hin. apply in_map_iff in Hin.
+  destruct Hin as [x0 [Hx Hin0]]. subst x. cbn [snd]. apply Hstep. apply Hrefs. exact Hin0.
+Qed.
+Lemma refs_filter : forall reg f refs, refs_resolvable reg refs -> refs_resolvable reg (filter f refs).
+Proof. intros reg f refs H x Hin. apply filter_In in Hin. apply H. exact (proj1 Hin). Qed.
+Lemma refs_snoc : forall reg refs x, refs_resolvable reg refs -> resolvable reg (snd x) -> refs_resolvable reg (refs ++ [x]).
+Proof.
+  intros reg refs x H Hx y Hin. apply in_app_or in Hin. destruct Hin as [Hin|[Hin|[]]]; [apply H; exact Hin|subst y; exact Hx].
+Qed.
+Lemma refs_mono : forall reg reg' refs, (forall r, resolvable reg r -> resolvable reg' r) ->
+  refs_resolvable reg refs -> refs_resolvable reg' refs.
+Proof. intros reg reg' refs Hm H x Hin. apply Hm. apply H. exact Hin. Qed.
+
+Lemma import_path_ok : forall parts univ leaf, class_ids_ok (PMod univ) = true ->
+  import_path univ parts = Some leaf -> class_ids_ok leaf = true.
+Proof.
+  induction parts as [|p r IH]; intros univ leaf Hok H; cbn [import_path] in H; [discriminate|].
+  destruct r as [|q r'].
+  - destruct (pget p univ) as [[a|? ?| |]|] eqn:Eg; try discriminate. inversion H; subst.
+    exact (proj1 (class_ids_ok_child (PMod univ) p _ Hok Eg)).
+  - destruct (pget p univ) as [[a|? ?| |]|] eqn:Eg; try discriminate.
+    apply (IH a leaf); [|exact H]. exact (proj1 (class_ids_ok_child (PMod univ) p _ Hok Eg)).
+Qed.
+Lemma process_import_table_ok : forall univ c d c1, class_ids_ok (PMod univ) = true -> table_ok c ->
+  process_import univ c d = DOk c1 -> table_ok c1.
+Proof.
+  intros univ c d c1 Hu Hok Hp. unfold process_import in Hp.
+  destruct (d_from d && String.prefix gin_feature_prefix (d_module d)).
+  - destruct (d_alias d); [discriminate|].
+    destruct (String.eqb (d_module d) "__gin__.dynamic_registration"); [|discriminate].
+    destruct (c_imports c); [|discriminate]. inversion Hp; subst c1. exact Hok.
+  - destruct (import_path univ (split_dot (d_module d))) as [leaf|] eqn:Ei; [|discriminate].
+    destruct (c_dynamic c).
+    + destruct (String.eqb (d_bound_name d) "gin"); [discriminate|]. inversion Hp; subst c1; clear Hp.
+      intros n root d0 Hg. cbn [c_table tget] in Hg. destruct (String.eqb n (d_bound_name d)) eqn:E.
+      * injection Hg as Hroot _. rewrite <- Hroot.
+        destruct (d_from d || match d_alias d with Some _ => true | None => false end).
+        -- eapply import_path_ok; eauto.
+        -- destruct (pget (hd "" (split_dot (d_module d))) univ) as [m|] eqn:Eg; [|reflexivity].
+           exact (proj1 (class_ids_ok_child (PMod univ) _ _ Hu Eg)).
+      * rewrite tget_filter_neq in Hg; [exact (Hok _ _ _ Hg)|].
+        intro Hc. subst n. rewrite String.eqb_refl in E. discriminate.
+    + inversion Hp; subst c1. exact Hok.
+Qed.
+
+(* configuring keeps existing references working: over a whole run - successful or failed - the registry stays
+   well-formed and every reference (old ones re-pointed, new ones as created) names a registered selector *)
+Theorem C19_references_keep_working : forall univ stmts s refs c s' refs' c' e,
+  class_ids_ok (PMod univ) = true -> table_ok c ->
+  reg_wf (ds_reg s) -> refs_resolvable (ds_reg s) refs ->
+  run_stmts univ stmts s refs c = (s', refs', c', e) ->
+  reg_wf (ds_reg s') /\ refs_resolvable (ds_reg s') refs'.
+Proof.
+  intros univ stmts. induction stmts as [|st rest IH]; intros s refs c s' refs' c' e Hu Hok Hwf Hrefs Hrun.
+  - cbn [run_stmts] in Hrun. inversion Hrun; subst. split; assumption.
+  - destruct st as [d | scope sel param v | scope sel]; cbn [run_stmts] in Hrun.
+    + destruct (process_import univ c d) as [c1|err] eqn:Ep.
+      * eapply IH; [exact Hu|eapply process_import_table_ok; eauto|exact Hwf|exact Hrefs|exact Hrun].
+      * inversion Hrun; subst. split; assumption.
+    + destruct v as [z | scopes rsel].
+      * destruct (get_configurable (ds_reg s) c sel) as [[[reg2 full] rp2]|err] eqn:E2.
+        -- eapply IH; [exact Hu|exact Hok| | |exact Hrun]; cbn [ds_reg].
+           ++ eapply get_configurable_wf; eauto.
+           ++ apply refs_filter. eapply refs_retarget; [intros r Hr; exact (gc_resolvable_step _ _ _ _ _ _ _ Hwf E2 Hr)|].
+              eapply refs_retarget; [|exact Hrefs]. intros r Hr. rewrite retarget1_nil. exact Hr.
+        -- inversion Hrun; subst. cbn [ds_reg with_reg]. split; [apply failed_reg_wf; exact Hwf|].
+           eapply refs_mono; [|exact Hrefs]. intros r Hr. apply failed_reg_resolvable. exact Hr.
+      * destruct (get_configurable (ds_reg s) c rsel) as [[[reg1 rfull] rp1]|err] eqn:E1.
+        -- assert (Hwf1 : reg_wf reg1) by (eapply get_configurable_wf; eauto).
+           destruct (get_configurable reg1 c sel) as [[[reg2 full] rp2]|err] eqn:E2.
+           ++ eapply IH; [exact Hu|exact Hok| | |exact Hrun]; cbn [ds_reg].
+              ** eapply get_configurable_wf; eauto.
+              ** apply refs_snoc.
+                 --- apply refs_filter. eapply refs_retarget; [intros r Hr; exact (gc_resolvable_step _ _ _ _ _ _ _ Hwf1 E2 Hr)|].
+                     eapply refs_retarget; [|exact Hrefs]. intros r Hr. exact (gc_resolvable_step _ _ _ _ _ _ _ Hwf E1 Hr).
+                 --- cbn [snd]. eapply gc_resolvable_mono; [exact E2|]. exact (gc_full_resolvable _ _ _ _ _ _ Hwf Hok E1).
+           ++ inversion Hrun; subst. cbn [ds_reg with_reg]. split; [apply failed_reg_wf; exact Hwf1|].
+              eapply refs_mono; [|exact Hrefs]. intros r Hr. apply failed_reg_resolvable.
+              exact (gc_resolvable_mono _ _ _ _ _ _ _ E1 Hr).
+        -- inversion Hrun; subst. cbn [ds_reg with_reg]. split; [apply failed_reg_wf; exact Hwf|].
+           eapply refs_mono; [|exact Hrefs]. intros r Hr. apply failed_reg_resolvable. exact Hr.
+    + destruct (get_configurable (ds_reg s) c sel) as [[[reg2 full] rp2]|err] eqn:E2.
+      * eapply IH; [exact Hu|exact Hok| | |exact Hrun]; cbn [ds_reg].
+        -- eapply get_configurable_wf; eauto.
+        -- eapply refs_retarget; [|exact Hrefs]. intros r Hr. exact (gc_resolvable_step _ _ _ _ _ _ _ Hwf E2 Hr).
+      * inversion Hrun; subst. cbn [ds_reg with_reg]. split; [apply failed_reg_wf; exact Hwf|].
+        eapply refs_mono; [|exact Hrefs]. intros r Hr. apply failed_reg_resolvable. exact Hr.
+Qed.
+(* one parse call (fresh context) *)
+Corollary C19_references_keep_working_call : forall univ stmts s refs s' refs' c' e,
+  class_ids_ok (PMod univ) = true -> reg_wf (ds_reg s) -> refs_resolvable (ds_reg s) refs ->
+  run_stmts univ stmts s refs empty_ctx = (s', refs', c', e) ->
+  reg_wf (ds_reg s') /\ refs_resolvable (ds_reg s') refs'.
+Proof.
+  intros univ stmts s refs s' refs' c' e Hu Hwf Hrefs Hrun.
+  eapply C19_references_keep_working; [exact Hu| |exact Hwf|exact Hrefs|exact Hrun].
+  intros n root d Hg. cbn in Hg. discriminate.
+Qed.
+
+(* ---- object preservation over a whole run ---- *)
+Lemma in_retarget : forall rp refs x, In x refs -> In (fst x, retarget1 rp (snd x)) (retarget rp refs).
+Proof. intros rp refs x Hin. rewrite retarget_map. apply (in_map (fun x => (fst x, retarget1 rp (snd x)))). exact Hin. Qed.
+Lemma keep_true : forall (kp : (string * string) * string) scope full param,
+  scope <> fst (fst kp) \/ param <> snd kp ->
+  negb (skey_eqb (fst kp) (scope, full) && String.eqb (snd kp) param) = true.
+Proof.
+  intros kp scope full param [H|H]; apply negb_true_iff.
+  - unfold skey_eqb. cbn [fst snd]. destruct (String.eqb (fst (fst kp)) scope) eqn:E; [|reflexivity].
+    apply String.eqb_eq in E. congruence.
+  - destruct (String.eqb (snd kp) param) eqn:E; [|apply andb_false_r].
+    apply String.eqb_eq in E. congruence.
+Qed.
+
+(* a reference (key, param) -> r present before the run, whose (scope, param) no statement of the run binds again,
+   is still present after the run (re-pointed), and its selector is registered for the same object *)
+Theorem C19_reference_object_preserved : forall univ stmts s refs c s' refs' c' e kp r e0,
+  reg_wf (ds_reg s) -> In (kp, r) refs -> find_sel r (ds_reg s) = Some e0 ->
+  (forall scope sel param v, In (DBind scope sel param v) stmts -> scope <> fst (fst kp) \/ param <> snd kp) ->
+  run_stmts univ stmts s refs c = (s', refs', c', e) ->
+  exists r' e', In (kp, r') refs' /\ find_sel r' (ds_reg s') = Some e' /\ ce_obj e' = ce_obj e0.
+Proof.
+  intros univ stmts. induction stmts as [|st rest IH]; intros s refs c s' refs' c' e kp r e0 Hwf Hin Hs Hnb Hrun.
+  - cbn [run_stmts] in Hrun. inversion Hrun; subst. exists r, e0. auto.
+  - assert (Hnb' : forall scope sel param v, In (DBind scope sel param v) rest -> scope <> fst (fst kp) \/ param <> snd kp)
+      by (intros scope0 sel0 param0 v0 H0; eapply Hnb; right; exact H0).
+    destruct st as [d | scope sel param v | scope sel]; cbn [run_stmts] in Hrun.
+    + destruct (process_import univ c d) as [c1|err].
+      * eapply IH; eauto.
+      * inversion Hrun; subst. exists r, e0. auto.
+    + pose proof (Hnb scope sel param v (or_introl eq_refl)) as Hk.
+      destruct v as [z | scopes rsel].
+      * destruct (get_configurable (ds_reg s) c sel) as [[[reg2 full] rp2]|err] eqn:E2.
+        -- destruct (C19_reference_keeps_object _ _ _ _ _ _ _ _ Hwf Hs E2) as [e1 [He1 Ho1]].
+           assert (Hin2 : In (kp, retarget1 rp2 r)
+                     (filter (fun x => negb (skey_eqb (fst (fst x)) (scope, full) && String.eqb (snd (fst x)) param))
+                             (retarget rp2 (retarget [] refs)))).
+           { apply filter_In. split; [|cbn [fst]; apply keep_true; exact Hk].
+             apply (in_retarget rp2 _ (kp, r)). apply (in_retarget [] _ (kp, r)). exact Hin. }
+           pose proof (fun W I S => IH _ _ _ _ _ _ _ kp (retarget1 rp2 r) e1 W I S Hnb' Hrun) as IH'.
+           destruct (IH' (get_configurable_wf _ _ _ _ _ _ Hwf E2) Hin2 He1) as [r' [e' [Hi' [Hs' Ho']]]].
+           exists r', e'. split; [exact Hi'|]. split; [exact Hs'|congruence].
+        -- inversion Hrun; subst. cbn [ds_reg with_reg].
+           destruct (failed_reg_monotone (ds_reg s) c' sel _ _ Hs) as [e' [He' Ho']]. exists r, e'. auto.
+      * destruct (get_configurable (ds_reg s) c rsel) as [[[reg1 rfull] rp1]|err] eqn:E1.
+        -- assert (Hwf1 : reg_wf reg1) by (eapply get_configurable_wf; eauto).
+           destruct (C19_reference_keeps_object _ _ _ _ _ _ _ _ Hwf Hs E1) as [e1 [He1 Ho1]].
+           destruct (get_configurable reg1 c sel) as [[[reg2 full] rp2]|err] eqn:E2.
+           ++ destruct (C19_reference_keeps_object _ _ _ _ _ _ _ _ Hwf1 He1 E2) as [e2 [He2 Ho2]].
+              assert (Hin2 : In (kp, retarget1 rp2 (retarget1 rp1 r))
+                        (filter (fun x => negb (skey_eqb (fst (fst x)) (scope, full) && String.eqb (snd (fst x)) param))
+                                (retarget rp2 (retarget rp1 refs)) ++ [(scope, full, param, rfull)])).
+              { apply in_or_app. left. apply filter_In. split; [|cbn [fst]; apply keep_true; exact Hk].
+                apply (in_retarget rp2 _ (kp, retarget1 rp1 r)). apply (in_retarget rp1 _ (kp, r)). exact Hin. }
+              pose proof (fun W I S => IH _ _ _ _ _ _ _ kp (retarget1 rp2 (retarget1 rp1 r)) e2 W I S Hnb' Hrun) as IH'.
+           destruct (IH' (get_configurable_wf _ _ _ _ _ _ Hwf1 E2) Hin2 He2) as [r' [e' [Hi' [Hs' Ho']]]].
+              exists r', e'. split; [exact Hi'|]. split; [exact Hs'|congruence].
+           ++ inversion Hrun; subst. cbn [ds_reg with_reg].
+              destruct (get_configurable_monotone_sel _ _ _ _ _ _ E1 _ _ Hs) as [e1' [He1' Ho1']].
+              destruct (failed_reg_monotone reg1 c' sel _ _ He1') as [e' [He' Ho']]. exists r, e'.
+              split; [exact Hin|]. split; [exact He'|congruence].
+        -- inversion Hrun; subst. cbn [ds_reg with_reg].
+           destruct (failed_reg_monotone (ds_reg s) c' rsel _ _ Hs) as [e' [He' Ho']]. exists r, e'. auto.
+    + destruct (get_configurable (ds_reg s) c sel) as [[[reg2 full] rp2]|err] eqn:E2.
+      * destruct (C19_reference_keeps_object _ _ _ _ _ _ _ _ Hwf Hs E2) as [e1 [He1 Ho1]].
+        pose proof (in_retarget rp2 _ (kp, r) Hin) as Hin2. cbn [fst snd] in Hin2.
+        pose proof (fun W I S => IH _ _ _ _ _ _ _ kp (retarget1 rp2 r) e1 W I S Hnb' Hrun) as IH'.
+           destruct (IH' (get_configurable_wf _ _ _ _ _ _ Hwf E2) Hin2 He1) as [r' [e' [Hi' [Hs' Ho']]]].
+        exists r', e'. split; [exact Hi'|]. split; [exact Hs'|congruence].
+      * inversion Hrun; subst. cbn [ds_reg with_reg].
+        destruct (failed_reg_monotone (ds_reg s) c' sel _ _ Hs) as [e' [He' Ho']]. exists r, e'. auto.
+Qed.
 (* ------------------------------------------------------------------ *)
 (* ---- why the hypothesis on ids: without it C19_exact_object is FALSE in the model ---- *)
 (* ------------------------------------------------------------------ *)
@@ -1159,6 +1418,79 @@ Module Counterexamples.
       vm_compute in Hfs. discriminate.
     - vm_compute in E. discriminate.
   Qed.
+
+  (* (3) C19_reference_survives_step WITHOUT no_respelling: the class (object 1) is registered as a.C and, later, as b.C;
+         a reference names b.C (the latest).  A file importing a configures the unregistered method a.C.k: the class
+         is re-registered under a.C IN PLACE (replace_entry keeps the old position), the reference is re-pointed
+         b.C -> a.C (same object), but find_obj still answers b.C: the position-based inverse registry does not see the
+         re-registration (gin: _INVERSE_REGISTRY[cls] is the new a.C). *)
+  Definition cx_cls2 : pyobj := PClass 1 [("k", PFunc 7)].
+  Definition cx_da : dimport := {| d_module := "a"; d_from := false; d_alias := None |}.
+  Definition cx_eA : centry := {| ce_sel := "a.C"; ce_obj := 1; ce_method := false; ce_src := None; ce_home := ("", "") |}.
+  Definition cx_eB : centry := {| ce_sel := "b.C"; ce_obj := 1; ce_method := false; ce_src := None; ce_home := ("", "") |}.
+  Definition cx_reg2 : list centry := [cx_eA; cx_eB].
+  Definition cx_ctx2 : dctx := {| c_dynamic := true; c_imports := [cx_da]; c_table := [("a", (PMod [("C", cx_cls2)], cx_da))] |}.
+  Eval vm_compute in
+    match get_configurable cx_reg2 cx_ctx2 "a.C.k" with
+    | DOk (reg', full, rp) => Some (map (fun e => (ce_sel e, ce_obj e)) reg', full, rp, retarget1 rp "b.C",
+                                    option_map ce_sel (find_obj 1 reg'))
+    | DErr _ => None end.
+  Lemma cx_reg2_wf : reg_wf cx_reg2.
+  Proof.
+    unfold reg_wf, cx_reg2. cbn [map ce_sel cx_eA cx_eB].
+    constructor; [intros [H|[]]; discriminate|constructor; [intros []|constructor]].
+  Qed.
+  Theorem C19_reference_survives_step_orig_refuted :
+    ~ (forall reg c sel reg' full rp r e, reg_wf reg ->
+         find_sel r reg = Some e -> find_obj (ce_obj e) reg = Some e ->
+         get_configurable reg c sel = DOk (reg', full, rp) ->
+         exists e', find_sel (retarget1 rp r) reg' = Some e' /\ ce_obj e' = ce_obj e /\ find_obj (ce_obj e) reg' = Some e').
+  Proof.
+    intro H. destruct (get_configurable cx_reg2 cx_ctx2 "a.C.k") as [[[r' s] p]|err] eqn:E.
+    - destruct (H cx_reg2 cx_ctx2 _ _ _ _ "b.C" cx_eB cx_reg2_wf eq_refl eq_refl E) as [e' [Hs [_ Hl]]].
+      vm_compute in E. inversion E; subst r' s p. clear E.
+      vm_compute in Hs. injection Hs as Hs. vm_compute in Hl. injection Hl as Hl.
+      rewrite <- Hs in Hl. discriminate Hl.
+    - vm_compute in E. discriminate.
+  Qed.
+
+  (* (4) refs_ok (every reference names the LATEST registration of its object) is not an invariant of a run:
+         `a.C.k.x = @b.C` first resolves the value b.C (registering the class as b.C), then the target a.C.k registers
+         the class again as a.C; the reference just created is not re-pointed (gin does not either: it is not yet in
+         the config when _register re-points).  It still names a registered selector of the same object. *)
+  Definition cx_univ : list (string * pyobj) := [("a", PMod [("C", cx_cls2)]); ("b", PMod [("C", cx_cls2)])].
+  Definition cx_stmts : list dstmt :=
+    [DImport {| d_module := "__gin__.dynamic_registration"; d_from := true; d_alias := None |};
+     DImport cx_da; DImport {| d_module := "b"; d_from := false; d_alias := None |};
+     DBind "" "a.C.k" "x" (DRef [] "b.C")].
+  Definition cx_s0 : dstate := {| ds_reg := []; ds_store := []; ds_imports := []; ds_dynamic_seen := false |}.
+  Eval vm_compute in
+    let '(s', refs', _, e) := run_stmts cx_univ cx_stmts cx_s0 [] empty_ctx in
+    (map (fun e => (ce_sel e, ce_obj e)) (ds_reg s'), refs', e, option_map ce_sel (find_obj 1 (ds_reg s'))).
+  Theorem refs_ok_latest_not_invariant :
+    refs_ok (ds_reg cx_s0) [] /\ reg_wf (ds_reg cx_s0) /\
+    exists s' refs' c', run_stmts cx_univ cx_stmts cx_s0 [] empty_ctx = (s', refs', c', None) /\ ~ refs_ok (ds_reg s') refs'.
+  Proof.
+    split; [intros x []|]. split; [constructor|].
+    destruct (run_stmts cx_univ cx_stmts cx_s0 [] empty_ctx) as [[[s' refs'] c'] e] eqn:E.
+    vm_compute in E. inversion E; subst s' refs' c' e. clear E.
+    eexists. eexists. eexists. split; [reflexivity|].
+    intro H. destruct (H _ (or_introl eq_refl)) as [e1 [Hs Hl]].
+    vm_compute in Hs. injection Hs as Hs. subst e1. vm_compute in Hl. discriminate Hl.
+  Qed.
+
+  (* (5) the static branch: the selector handed back need not be `latest` - gin's own names are not in the model's
+         registry at all, and an older registration of an object is handed back as it is *)
+  Eval vm_compute in show (get_configurable [] empty_ctx "macro").
+  Eval vm_compute in show (get_configurable cx_reg2 empty_ctx "a.C").
+  Theorem static_result_not_latest :
+    get_configurable [] empty_ctx "macro" = DOk ([], "gin.macro", []) /\ ~ latest [] "gin.macro" /\
+    get_configurable cx_reg2 empty_ctx "a.C" = DOk (cx_reg2, "a.C", []) /\ ~ latest cx_reg2 "a.C".
+  Proof.
+    split; [vm_compute; reflexivity|]. split; [intros [e [H _]]; discriminate|].
+    split; [vm_compute; reflexivity|]. intros [e [Hs Hl]].
+    vm_compute in Hs. injection Hs as Hs. subst e. vm_compute in Hl. discriminate Hl.
+  Qed.
 End Counterexamples.
 
 (* ------------------------------------------------------------------ *)
@@ -1183,5 +1515,17 @@ Print Assumptions C19_table_from_own_imports.
 Print Assumptions failed_reg_wf.
 Print Assumptions failed_reg_monotone.
 Print Assumptions failed_reg_static.
+Print Assumptions retarget_map.
+Print Assumptions C19_reference_keeps_object.
+Print Assumptions C19_reference_survives_step.
+Print Assumptions C19_latest_survives_step.
+Print Assumptions C19_result_is_latest.
+Print Assumptions get_configurable_static_spec.
+Print Assumptions C19_references_keep_working.
+Print Assumptions C19_references_keep_working_call.
+Print Assumptions C19_reference_object_preserved.
 Print Assumptions Counterexamples.method_selector_collision_is_error.
 Print Assumptions Counterexamples.C19_exact_object_orig_refuted.
+Print Assumptions Counterexamples.C19_reference_survives_step_orig_refuted.
+Print Assumptions Counterexamples.refs_ok_latest_not_invariant.
+Print Assumptions Counterexamples.static_result_not_latest.
